@@ -145,6 +145,10 @@ class SMCSampler(MCMCSampler):
                 else:
                     beta_max = beta_try
             beta_star = beta_min
+            if beta_star <= beta_prev:
+                # No beta above the current one meets the target within the
+                # tolerance: take the upper bracket so the schedule advances
+                beta_star = beta_max
 
             if self.adaptive_min_step and beta_star < 1.0:
                 min_step = min_step * (1 - beta_prev) / (1 - beta_star)
